@@ -34,6 +34,9 @@ CHECKS["C08"] = ("exploration", "deterministic simulation: executable reference 
 CHECKS["C12"] = ("exploration", "deterministic simulation of long histories (hundreds of uplinks per run at microsecond cost): executable reference model of header bits, ADR counter and back-off compared uplink by uplink",
  "Every uplink of seeded histories of up to 400 uplinks (all regions incl. data-rate gaps, both front-ends + Class C, rare accepted / confirmed / rejected downlinks, ADR toggles, data-rate overrides, re-joins) is decoded by the reference codec and compared with the model's DevAddr, MType, ACK, ADR, ADRACKReq and data rate; the data rate must never change unless the model says so. Sampling.",
  "Trusted: reference codec, the model in props/c12.rs (written from the statement), reference verdicts for which downlinks count as accepted (C05 checks the device agrees). Count-dependent predictions are suspended after an ADR toggle or a mid-transaction Class C reception until the next RX1/RX2 downlink.", "6 (C12)")
+CHECKS["C09"] = ("exploration", "deterministic simulation with a harness-owned RNG: admissible-set monitor on every TxConfig, RNG-outcome enumeration of the final transmission by re-execution with forced draws, RNG-draw budget for termination",
+ "Every frame handed to the radio in seeded histories (CFLists, LinkADRReq masks, NewChannelReq create/delete, ADR back-off across bandwidth classes, data-rate overrides, re-joins under join bias; 4 boards) must be in band, on a defined and enabled channel (join: a join channel with the mandated data rate), with a region-defined data rate of the channel's bandwidth and power within radio maximum, regional EIRP less gain and the commanded level. For the final transmission of each history all 64 first-draw outcomes are enumerated by re-execution (thorough: every run; quick: 1 in 8). Sampling over histories.",
+ "Trusted: refregion.rs band/channel/power tables, the H1 snapshot for plan and mask in force. A retry loop that draws more than 100000 random numbers is reported as non-terminating.", "6 (C09)")
 PENDING = {}
 
 def main():
